@@ -11,12 +11,21 @@ THEOREMS = [
     "TornadoModel.C03.canKeepAlive_eq_allows",
     "TornadoModel.C03.keepalive_iff_partial",
     "TornadoModel.C03.keepalive_iff_refuted",
+    "TornadoModel.C03.keepalive_iff_output",
+    "TornadoModel.C03.selfDelimiting_iff_not_undelimited",
     "TornadoModel.C03.close_announced_partial",
     "TornadoModel.C03.close_announced_refuted",
     "TornadoModel.C03.no_false_ack_partial",
     "TornadoModel.C03.no_false_ack_refuted",
     "TornadoModel.C03.undelimited_closes",
     "TornadoModel.C03.options_nonempty",
+    "TornadoModel.C03.hasOption_iff",
+    "TornadoModel.C03.mem_options_iff",
+    "TornadoModel.C03.joinComma_splitComma",
+    "TornadoModel.C03.splitComma_no_comma",
+    "TornadoModel.C03.splitComma_joinComma",
+    "TornadoModel.C03.strip_spec",
+    "TornadoModel.C03.lowerC_ascii",
 ]
 TRUSTED = list(M.TRUSTED) + [
     "tornado.web.RequestHandler.flush/finish (automatic Content-Length, HEAD handling) — exercised, not modelled: the "
@@ -27,17 +36,26 @@ ASSUMPTIONS = [
     "Connection header values are latin-1 text; options are compared after str.lower() (ASCII + latin-1 letters modelled)",
     "no Expect: 100-continue; responses are accepted by the transport at once",
 ]
-RULE = ("full product version x Connection value x method x request-body framing x no_keep_alive x early-finish x response shape, "
+RULE = ("full product version x Connection value x method x request-body framing x no_keep_alive x finish point (after the body | in "
+        "headers_received/prepare() | mid-body: after k payload bytes went through data_received, k = every offset strictly inside the "
+        "body in the thorough tier, one per body in the quick tier) x response shape, "
         "served by a real Application (kind app) and by a raw HTTPMessageDelegate (kind raw), each followed by a pipelined second "
         "request; non-trivial = every case (each is one decision); random stream adds free-form Connection values")
 EXHAUSTIVE = {"quick": True, "thorough": True}
 CLAUSE_CAVEATS = [
-    "Spec.allows shares the Connection-option parser and the chunking decision with the model, so 'self-delimiting' is not independently characterised on the theorem side",
-    'close_announced / no_false_ack are proved for handlers that do not finish before the request body is read (D13 is a recorded known finding); a handler finishing mid-body is outside the generated domain',
+    "Spec.allows is phrased with the model's hasOption; the parser behind it is characterised independently (hasOption_iff, "
+    "splitComma = inverse of joining comma-free pieces, strip_spec, lowerC_ascii) only for ASCII case folding - the latin-1 letters "
+    "of lower() are tie-only.  On the theorem side the 'chunked on the wire' input of selfDelimiting is the run's own output "
+    "(keepalive_iff_output); that this output equals the real response's framing is the tie, and the oracle reads it off the wire",
+    'close_announced / no_false_ack are proved for handlers that finish after the request body was read; for a handler that finishes '
+    'in headers_received/prepare() or mid-body they are refuted (D13, recorded known finding, not safely fixable: write_headers cannot '
+    'know that finish() will come before the body is read) - both finish points are generated and compared',
 ]
 CLAUSES = {
     "keeps the connection open exactly when request allows, not no_keep_alive, response self-delimiting, whole body read":
-        "keepalive_iff_partial (all cases except early finish on a body-less request) + keepalive_iff_refuted (known finding) + canKeepAlive_eq_allows + undelimited_closes",
+        "keepalive_iff_partial / keepalive_iff_output (all cases except early finish on a body-less request) + keepalive_iff_refuted (known finding) "
+        "+ canKeepAlive_eq_allows + undelimited_closes + selfDelimiting_iff_not_undelimited; option-list parser: hasOption_iff, mem_options_iff, "
+        "joinComma_splitComma, splitComma_no_comma, splitComma_joinComma, strip_spec, lowerC_ascii",
     "HTTP/1.1 client is told 'Connection: close' when the server will close":
         "close_announced_partial (handler finished after the body was read) + close_announced_refuted (D13, known finding)",
     "keep-alive acknowledgement never sent on a connection about to close":
@@ -51,16 +69,25 @@ CONNS = [None, "close", "keep-alive", "Keep-Alive", "CLOSE", "upgrade", "close, 
 METHODS = ["GET", "HEAD", "POST"]
 BODIES = [["none"], ["cl", 0], ["cl", 5], ["chunked", [2, 3]]]
 RESPS = ["cl", "stream", "s204", "s304"]
+QUICK_CUTS = {"cl": [2], "chunked": [3]}     # chunked [2,3]: payload offset 3 = inside the second chunk
 SECOND = {"ver": "1.1", "conn": None, "method": "GET", "body": ["none"]}
 
 
-def mk_case(kind, ver, conn, method, body, nka, early, resp):
+def mk_case(kind, ver, conn, method, body, nka, early, resp, cut=None):
+    """early: False = the handler responds when the whole request was read; True = it responds in headers_received /
+    prepare(); "mid" = it responds in the middle of the request body: after the first `cut` payload bytes were
+    delivered through data_received (events: feed head + cut bytes, respond, feed the rest)."""
+    mid = early == "mid"
+    if mid:
+        h, fin = "sync", "later"
+    else:
+        h, fin = ("early" if early else "sync"), "now"
     if kind == "app":
-        sc = {"h": "early" if early else "sync", "d": "sync", "f": "now", "resp": resp,
+        sc = {"h": h, "d": "sync", "f": fin, "resp": resp,
               "cc": "headers" if early else "finish", "actFin": not early}
         sc2 = {"h": "sync", "d": "sync", "f": "now", "resp": "cl", "cc": "finish", "actFin": True}
     else:
-        sc = {"h": "early" if early else "sync", "d": "sync", "f": "now", "resp": resp, "cc": "headers", "actFin": False}
+        sc = {"h": h, "d": "sync", "f": fin, "resp": resp, "cc": "headers", "actFin": False}
         sc2 = {"h": "sync", "d": "sync", "f": "now", "resp": "cl", "cc": "headers", "actFin": False}
     first = {"ver": ver, "conn": conn, "method": method, "body": body, "script": sc}
     second = {**SECOND, "script": sc2}
@@ -68,9 +95,34 @@ def mk_case(kind, ver, conn, method, body, nka, early, resp):
         first["path"] = I.app_path(sc)
         second["path"] = I.app_path(sc2)
     case = {"kind": kind, "params": {"nka": nka, "bt": False, "xh": False}, "reqs": [first, second],
-            "f": {"early": early, "resp": resp}}
-    case["events"] = [["feed", len(I.wire_all(case))]]
+            "f": {"early": bool(early), "resp": resp}}
+    total = len(I.wire_all(case))
+    if mid:
+        case["f"]["mid"] = cut
+        head, payload, segs = I.wire_request(first)
+        k = len(head) + wire_offset(segs, cut)
+        case["events"] = [["feed", k], ["respond"], ["feed", total - k]]
+    else:
+        case["events"] = [["feed", total]]
     return case
+
+
+def wire_offset(segs, cut):
+    """bytes of the body wire form consumed when exactly `cut` payload bytes have been delivered (cut >= 1)"""
+    off = got = 0
+    for s in segs:
+        if s[0] == "data":
+            if got + s[1] >= cut:
+                return off + (cut - got)
+            got += s[1]
+        off += s[1]
+    raise AssertionError((segs, cut))
+
+
+def mid_cuts(body):
+    """payload offsets strictly inside the request body at which a handler can finish 'mid-body'"""
+    n = body[1] if body[0] == "cl" else sum(body[1]) if body[0] == "chunked" else 0
+    return list(range(1, n))
 
 
 def gen_cases(rng, tier):
@@ -78,12 +130,26 @@ def gen_cases(rng, tier):
         for ver, conn, method, body, nka, early, resp in itertools.product(
                 ["1.1", "1.0"], CONNS, METHODS, BODIES, [False, True], [False, True], RESPS):
             yield mk_case(kind, ver, conn, method, body, nka, early, resp)
+    # the handler finishes in the middle of the request body (after `cut` payload bytes went through data_received)
+    for kind in ("app", "raw"):
+        for ver, conn, method, body, nka, resp in itertools.product(
+                ["1.1", "1.0"], CONNS, METHODS, BODIES, [False, True], RESPS):
+            cuts = mid_cuts(body)
+            if tier != "thorough":
+                cuts = [c for c in cuts if c in QUICK_CUTS[body[0]]]
+            for cut in cuts:
+                yield mk_case(kind, ver, conn, method, body, nka, "mid", resp, cut)
     n = {"quick": 600, "thorough": 12000, "search": 2000}[tier]
     toks = ["close", "Close", "keep-alive", "KEEP-ALIVE", "x", "te", "", " ", "\t", "clos", "closex", "keep-alive2", "\xc9"]
     for _ in range(n):
         conn = rng.choice([",", ", ", " ,", ",,"]).join(rng.choice(toks) for _ in range(rng.randint(1, 3))).strip(" \t")
-        yield mk_case(rng.choice(["app", "raw"]), rng.choice(["1.1", "1.0"]), conn, rng.choice(METHODS), rng.choice(BODIES),
-                      rng.random() < 0.2, rng.random() < 0.3, rng.choice(RESPS))
+        body = rng.choice(BODIES)
+        early = rng.random() < 0.3
+        cut = None
+        if mid_cuts(body) and rng.random() < 0.25:
+            early, cut = "mid", rng.choice(mid_cuts(body))
+        yield mk_case(rng.choice(["app", "raw"]), rng.choice(["1.1", "1.0"]), conn, rng.choice(METHODS), body,
+                      rng.random() < 0.2, early, rng.choice(RESPS), cut)
 
 
 def run_impl(case):
@@ -109,16 +175,17 @@ def model_result(case, replies):
     return {"machine": M.model_result(case, replies[:1]), "serve": M._plain(vals)}
 
 
-def _observed(impl):
+def _observed(case, impl):
     """-> (Connection header of the first response, chunked on the wire, connection kept for the second request)"""
     rs = impl["responses"]
     first = rs[0] if rs else [None, None, None, None]
-    closed_after = impl["marks"][0][2]
+    # the stream state right after the event in which the first response was written
+    closed_after = impl["marks"][1 if case["f"].get("mid") else 0][2]
     return first[1], first[2] == "chunked", (not closed_after)
 
 
 def impl_view(case, impl):
-    conn, chunked, kept = _observed(impl)
+    conn, chunked, kept = _observed(case, impl)
     return {"machine": M.impl_view(case, impl), "serve": [conn, not kept, chunked]}
 
 
@@ -131,7 +198,7 @@ def spec_requests(case, impl):
     if "harness_exc" in impl:
         return []
     f = case["f"]
-    conn, chunked, kept = _observed(impl)
+    conn, chunked, kept = _observed(case, impl)
     conn_tok = None if conn is None else (atom(conn) if conn in ("close", "Keep-Alive") else atom("other"))
     return [line(ID, "spec", atom(bool(case["params"]["nka"])), _req_enc(case), atom(f["resp"]), atom(f["early"]),
                  atom(body_empty(case["reqs"][0])), conn_tok, atom(chunked), atom(kept))]
@@ -142,7 +209,7 @@ def spec_violation(case, impl, replies):
     if st != "ok":
         return "malformed Connection header on the wire: %r" % (impl["responses"][:1],)
     bad = [str(x) for x in vals[0]]
-    conn, chunked, kept = _observed(impl)
+    conn, chunked, kept = _observed(case, impl)
     answered2 = len([r for r in impl["responses"] if r[0] != 400]) == 2
     if kept != answered2:
         bad.append("second-request-%s" % ("unanswered-on-open-connection" if kept else "answered-after-close"))
@@ -154,15 +221,16 @@ def nontrivial(case, impl):
 
 
 def stats(case, impl):
-    conn, chunked, kept = _observed(impl)
+    conn, chunked, kept = _observed(case, impl)
     f = case["f"]
     return ["kind:" + case["kind"], "ver:" + case["reqs"][0]["ver"], "kept:%s" % kept, "conn-out:%s" % conn,
-            "early:%s" % f["early"], "resp:" + f["resp"], "nka:%s" % case["params"]["nka"]]
+            "early:%s" % ("mid-body" if f.get("mid") else f["early"]), "resp:" + f["resp"], "nka:%s" % case["params"]["nka"]]
 
 
 def signature(case, impl, why):
     f = case["f"]
-    return "%s/%s/%s" % (why.replace("violated: ", ""), "early" if f["early"] else "whole-body-read",
+    return "%s/%s/%s" % (why.replace("violated: ", ""),
+                         "mid-body" if f.get("mid") else "early" if f["early"] else "whole-body-read",
                          "empty-body" if body_empty(case["reqs"][0]) else "body")
 
 
